@@ -9,7 +9,7 @@ pub fn def() -> PropDef {
         builds: BOTH,
         rule: "every text over {L,SP,NL,E2,W,HY,CR,TAB,CSI} up to length N x widths 0..=display width+2, MAX; non-trivial = at least one space was turned into a newline",
         assumptions: BASE_ASSUMPTIONS,
-        floor: |t| t.pick(50_000, 1_000_000),
+        floor: |t| t.pick(50_000, 150_000),
         run,
     }
 }
